@@ -4,6 +4,11 @@ import itertools
 from vlib.framework import BaseCheck, CaseResult
 
 
+def _val(i, outcome):
+  """value input i succeeds with: S -> a tuple naming it, N -> None, Z -> 0"""
+  return ('v', i) if outcome == 'S' else None if outcome == 'N' else 0
+
+
 class Boom(Exception):
   pass
 
@@ -53,6 +58,12 @@ class C17(BaseCheck):
       for n in range(1, nmax + 1):
         for outcome in itertools.product('SF', repeat=n):
           plan.append((kind, n, ''.join(outcome), None))
+      # inputs that succeed with a value that is false in a boolean context: None (what Open() results and
+      # AsyncResult.Complete() carry) and 0
+      for n in range(1, 4):
+        for outcome in itertools.product('SFNZ', repeat=n):
+          if 'N' in outcome or 'Z' in outcome:
+            plan.append((kind, n, ''.join(outcome), None))
       # sampled larger n
       for n in range(nmax + 1, 9):
         for rep in range(6 if tier == 'quick' else 40):
@@ -85,8 +96,8 @@ class C17(BaseCheck):
   # ------------------------------------------------------------------ helpers
   @staticmethod
   def _complete(ar, i, outcome):
-    if outcome == 'S':
-      ar.set(('v', i))
+    if outcome in 'SNZ':
+      ar.set(_val(i, outcome))
     else:
       ar.set_exception(Boom('f%d' % i))
 
@@ -95,16 +106,16 @@ class C17(BaseCheck):
     if failed:
       return ('fail', set('f%d' % i for i in failed))
     if len(done) == n:
-      return ('ok', [('v', i) for i in range(n)])
+      return ('ok', [_val(i, outcomes[i]) for i in range(n)])
     return ('pending', None)
 
   def _when_any_spec(self, pre, post_done, outcomes, n):
-    pre_succ = [i for i in pre if outcomes[i] == 'S']
+    pre_succ = [i for i in pre if outcomes[i] in 'SNZ']
     if pre_succ:
-      return ('ok-any', set(('v', i) for i in pre_succ))
-    succ = [i for i in post_done if outcomes[i] == 'S']
+      return ('ok-any', [_val(i, outcomes[i]) for i in pre_succ])
+    succ = [i for i in post_done if outcomes[i] in 'SNZ']
     if succ:
-      return ('ok-any', {('v', succ[0])})
+      return ('ok-any', [_val(succ[0], outcomes[succ[0]])])
     done = list(pre) + list(post_done)
     if len(done) == n:
       if post_done:
@@ -156,7 +167,7 @@ class C17(BaseCheck):
     if kind in ('WhenAll', 'WhenAny'):
       n = a
       if b is None:
-        outcomes = ''.join(rng.choice('SSF') for _ in range(n))
+        outcomes = ''.join(rng.choice('SSFSSFN') for _ in range(n))
         orders = []
         for _ in range(30):
           k = rng.randint(0, n)
